@@ -64,6 +64,7 @@ type VersionedStore struct {
 	batch        *pebble.Batch
 	closed       bool
 	parallel     bool // when true, the store shares (does not own) the underlying reader and must never be closed
+	sharedBatch  bool // when true, the batch is owned by a Store that closes it exactly once, Close() leaves it open
 	version      uint64
 	decodeBuffer [][]byte
 }
@@ -77,6 +78,15 @@ func NewVersionedStore(db pebble.Reader, batch *pebble.Batch, version uint64) *V
 		version:      version,
 		decodeBuffer: make([][]byte, 0, 5),
 	}
+}
+
+// newSharedBatchStore creates a versioned store over a batch that several versioned stores write to and
+// that the owning Store closes itself; closing a pebble batch more than once hands a pooled batch that
+// may already belong to another writer back to the pool
+func newSharedBatchStore(db pebble.Reader, batch *pebble.Batch, version uint64) *VersionedStore {
+	vs := NewVersionedStore(db, batch, version)
+	vs.sharedBatch = true
+	return vs
 }
 
 // NewParallelReader creates a read-only VersionedStore sharing the same
@@ -200,8 +210,8 @@ func (vs *VersionedStore) Close() lib.ErrorI {
 			return ErrCloseDB(err)
 		}
 	}
-	// for read-only versioned store, batch may be nil
-	if vs.batch != nil {
+	// for read-only versioned store, batch may be nil; a shared batch is closed by the store that owns it
+	if vs.batch != nil && !vs.sharedBatch {
 		if err := vs.batch.Close(); err != nil {
 			return ErrCloseDB(err)
 		}
